@@ -1519,7 +1519,13 @@ BOUNDS = {
     "send_response. SNEP server _serve: 13 fragment sequences (0..11 octets, up to 3 "
     "fragments, all octets symbolic), MIU 128 / 6, NDEF decoding outcome drawn per call; "
     "SNEP client put/get with 10 response fragment sequences, server closing or silent; "
-    "handover server serve with 6 fragment sequences. connect(llcp=) in both roles with 11 "
+    "handover server serve with 10 fragment sequences, handover client recv_octets / "
+    "recv_records with 9 (zero-length fragments first, in the middle and after a complete "
+    "message in all four; the NDEF stub yields no records for no octets like ndeflib). "
+    "Application calls asleep because of peer-controlled state (send() on an exhausted "
+    "remote receive window RW 1/2, recv(), accept(), connect()) while the peer sends DISC / "
+    "DM (any reason) / FRMR / RR / CC / only SYMM: the call must be notified on the condition "
+    "it sleeps on and come back, or (controls) stay asleep. connect(llcp=) in both roles with 11 "
     "general byte shapes and a first LLC frame of 2..3 symbolic octets per SAP; connect as "
     "initiator with an ATR_RES from sense_dep (7 shapes); connect(card=) with 8 command "
     "sequences",
@@ -1549,6 +1555,10 @@ OUTSIDE = [
     "peer behaviour over many frames (more than 3 arbitrary frames per conversation)",
 ]
 ASSUMPTIONS = [
+    "env.coop (cooperative locks / conditions, used read-only) for the family of sleeping "
+    "application calls: one application call, link steps (dispatch of the peer's PDU + two "
+    "collect() turns) run where the call sleeps in wait() without time-out, never earlier "
+    "(NoPreemption); the peer goes on with SYMM (3 further link steps)",
     "env.peer.ScriptClf / ScriptInitiator / ScriptTarget: the frontend under nfc.dep and the "
     "MAC under the LLC answer from a script; silence (TimeoutError) when it is exhausted; "
     "an ATR_REQ handed to Target.activate has 16..64 octets (ContactlessFrontend.listen "
